@@ -391,6 +391,22 @@ def run_check(modname, argv=None):
                     proof_ok = False
                     proof_problems.append({"what": "theorem depends on a forbidden axiom", "theorem": t, "axioms": ax})
     discharged = sum(1 for t in theorems if axioms.get(t) is not None and set(axioms[t]) <= ALLOWED_AXIOMS) if build_ok else 0
+    # thorough tier: independent re-check of the compiled proofs with leanchecker (replays every declaration
+    # of the property's modules through the kernel)
+    leanchecker = None
+    if tier == "thorough" and build_ok and not args.no_lean and lean_modules:
+        try:
+            p = subprocess.run(["leanchecker"] + lean_modules, cwd=LEAN_DIR, env=lean_env(), capture_output=True,
+                               text=True, timeout=1800)
+            leanchecker = "ok" if p.returncode == 0 else "failed"
+            if p.returncode != 0:
+                proof_ok = False
+                proof_problems.append({"what": "leanchecker rejected the compiled modules", "modules": lean_modules,
+                                       "log": (p.stdout + p.stderr)[-3000:]})
+        except FileNotFoundError:
+            leanchecker = "not installed"
+        except subprocess.TimeoutExpired:
+            leanchecker = "timed out (not counted)"
 
     # ---- 2. cases: corpus first, then generated -----------------------------------------------
     cases = []
@@ -535,6 +551,7 @@ def run_check(modname, argv=None):
             "search_cases_after_break": searched,
             "input_distribution": dict(hist.most_common(60)),
             "proof_problems": proof_problems,
+            "leanchecker": leanchecker,
             "notes": notes + list(getattr(ctx, "notes", [])),
         },
         "assumptions": list(getattr(mod, "ASSUMPTIONS", [])),
